@@ -146,7 +146,8 @@ def read_7z_handle(page_7z_file: str, page_7z_handle: py7zr.SevenZipFile,
         if filenames_only is True:
             yield file_info, None
         else:
-            yield file_info, zipped_file_data
+            # py7zr returns file-like objects; yield the content like the zip and tar readers do
+            yield file_info, zipped_file_data.read()
 
 
 def read_page_7z_file(page_7z_file: str,
